@@ -36,6 +36,18 @@
                                the request passes validation and fails only when the field is
                                resolved, after sibling resolvers have run; repaired = refused
                                (`expected type "T"`)
+    undeclaredKeysIgnored      the generated struct `parse` reads `obj.get(name)` per declared field
+                               and never looks at the other keys: `{a: 1, zzz: 2}` is parsed as
+                               `{a: 1}`.  Strict validation refuses such an object before anything
+                               is parsed; with `ValidationMode::Fast`, or beside a variable without
+                               runtime value, it reaches the resolver; repaired = an object
+                               carrying an undeclared key is refused by `parse` itself
+
+  Validation mode (`runMode`): Strict = `run` (the rules modelled below, then the executor);
+  Fast = `runFast`: ArgumentsOfCorrectType, DefaultValuesOfCorrectType and
+  ProvidedNonNullArguments are not run (src/validation/mod.rs `ValidationMode::Fast` keeps
+  NoFragmentCycles, UploadFile and the cost visitors only), the generated `parse` functions
+  alone decide.
 -/
 import AGV.Spec.Coerce
 import AGV.Model.Scalars
@@ -50,10 +62,11 @@ structure Defects where
   varValueNotCoerced : Bool := false
   literalUncheckedBesideVar : Bool := false
   nonObjectPassesInputObject : Bool := false
+  undeclaredKeysIgnored : Bool := false
   deriving DecidableEq, Repr
 
 def Defects.none : Defects := {}
-def Defects.pinned : Defects := ⟨true, true, true, true, true⟩
+def Defects.pinned : Defects := ⟨true, true, true, true, true, true⟩
 
 -- ------------------------------------------------------------------ context.rs
 
@@ -220,6 +233,53 @@ def fieldDefault (D : Defects) (T : Table) (f : InField) (d : GValue) : Option R
 def parseD (D : Defects) (T : Table) : RTy → GValue → Option RV :=
   parseWith (fieldDefault D T) D T
 
+mutual
+/-- every object literal met at an input object type (following the declared types the way
+    `parse` does: list items at the item type, a single value at the base type, the value of a
+    declared key at the field's type) carries declared keys only -/
+def declaredOk (T : Table) : TypeRef → GValue → Bool
+  | ty, .list xs =>
+    match ty.nullable with
+    | .list t => declaredOkList T t xs
+    | _ => true
+  | ty, .obj fs =>
+    match T.find? ty.base with
+    | some (.input _ fields) => declaredOkEntries T fields fs
+    | _ => true
+  | _, .null => true
+  | _, .int _ => true
+  | _, .float _ => true
+  | _, .str _ => true
+  | _, .bool _ => true
+  | _, .enum _ => true
+def declaredOkList (T : Table) (t : TypeRef) : List GValue → Bool
+  | [] => true
+  | x :: xs => declaredOk T t x && declaredOkList T t xs
+def declaredOkEntries (T : Table) (fields : List InField) : List (String × GValue) → Bool
+  | [] => true
+  | (k, v) :: rest =>
+    (match fields.find? (·.name = k) with
+     | some f => declaredOk T f.ty.gql v
+     | none => false) && declaredOkEntries T fields rest
+end
+
+/-- `<T as InputType>::parse(Some(v))` of a supplied value: pinned = `parseD` (undeclared keys of
+    a struct are never looked at); repaired = an object with an undeclared key is refused -/
+def parseK (D : Defects) (T : Table) (rty : RTy) (v : GValue) : Option RV :=
+  if D.undeclaredKeysIgnored || declaredOk T rty.gql v then parseD D T rty v else none
+
+/-- NOT the pinned tree — the seeded variant of the generated `OneofObject::parse` kept as
+    /verif/seeded/C06-r3 (`if let Some(value) = obj.remove(name) { parse(Some(value)) … }` instead
+    of `if obj.contains_key(name) && obj.len() == 1`): the first declared variant that is present
+    wins, the other members are dropped.  Only used by the witness theorem
+    `c06_witness_oneof_first_present` (what the check must notice). -/
+def oneofFirstPresent (p : RTy → GValue → Option RV) : List InField → List (String × GValue) → Option RV
+  | [], _ => none
+  | f :: rest, fs =>
+    match lookup fs f.name with
+    | some v => (p (match f.ty with | .opt t => t | t => t) v).map (fun r => .obj [(f.name, r)])
+    | none => oneofFirstPresent p rest fs
+
 /-- `get_param_value` with the default closure of the generated resolver wrapper -/
 def paramValue (D : Defects) (T : Table) (defs : List VarDef) (raw : List (String × GValue))
     (provided : List (String × DValue)) (a : InField) : Option RV :=
@@ -232,7 +292,7 @@ def paramValue (D : Defects) (T : Table) (defs : List VarDef) (raw : List (Strin
   | some dv =>
     match resolve defs raw dv with
     | none => if D.omittedVarSkipsArgDefault then parseAbsent D a.ty else dflt
-    | some v => parseD D T a.ty v
+    | some v => parseK D T a.ty v
 
 /-- all parameters in declaration order; the first failure is the field's error -/
 def paramValues (D : Defects) (T : Table) (defs : List VarDef) (raw : List (String × GValue))
@@ -440,5 +500,25 @@ def run (D : Defects) (T : Table) (op : OpDef) (raw : List (String × GValue)) :
     let outs := execFields D T op.vars raw fs false
     { status := if outs.all (fun o => match o.2 with | .seen _ => true | _ => false) then .ok else .fielderr,
       fields := outs }
+
+/-- `ValidationMode::Fast`: none of the rules that look at argument values runs; what remains is
+    the executor.  The repair of `varValueNotCoerced` (CoerceVariableValues, §6.1.2, is part of
+    EXECUTING a request, not of validating the document) applies in this mode too and then has
+    to cover the variable defaults, which no rule has checked. -/
+def runFast (D : Defects) (T : Table) (op : OpDef) (raw : List (String × GValue)) : Out :=
+  let fs := rootFields op
+  let valid :=
+    D.varValueNotCoerced ||
+      (varDefaultsValid D.nonObjectPassesInputObject T op.vars
+        && varValuesValid D.nonObjectPassesInputObject T op.vars raw)
+  if !valid then { status := .reqerr, fields := fs.map (fun f => (f.1, .notInvoked)) }
+  else
+    let outs := execFields D T op.vars raw fs false
+    { status := if outs.all (fun o => match o.2 with | .seen _ => true | _ => false) then .ok else .fielderr,
+      fields := outs }
+
+/-- the validation mode is a parameter of the schema -/
+def runMode (fast : Bool) (D : Defects) (T : Table) (op : OpDef) (raw : List (String × GValue)) : Out :=
+  if fast then runFast D T op raw else run D T op raw
 
 end AGV.Model.Coerce
